@@ -117,7 +117,7 @@ func (c caseA) allowedOn(caller string, actions []string, perm, resource string)
 	}
 	if c.Mode == "policy" {
 		for _, a := range actions {
-			if model.PolicyAllows(c.Stmts, caller, a, resource) {
+			if model.PolicyAllows(canonical(c.Stmts), caller, a, resource) {
 				return true
 			}
 		}
@@ -245,6 +245,11 @@ func execA(c caseA) (v verdict, err error) {
 	if c.Mode == "policy" {
 		doc := renderDoc(c.Stmts)
 		if r := rootc.MustCall("PUT", "/"+bktA, s3c.Q("policy", ""), nil, []byte(doc)); !r.OK() {
+			if r.Status == 400 && oddEffect(c.Stmts) {
+				// an Effect not spelled "Allow" / "Deny" may be refused; once a document is accepted its statements bind
+				ev.Class("policy-effect-spelling-refused")
+				return v, nil
+			}
 			return v, fmt.Errorf("SETUP: generated policy refused: %v\n%s", r, doc)
 		}
 	} else {
@@ -359,12 +364,36 @@ func (c caseA) describe() string {
 	return fmt.Sprintf("ACL grants %v", c.Grants)
 }
 
+// canonical: the statements with their Effect in the canonical spelling (what an accepted "deny" can only mean)
+func canonical(stmts []model.Statement) []model.Statement {
+	out := append([]model.Statement(nil), stmts...)
+	for i := range out {
+		switch {
+		case strings.EqualFold(out[i].Effect, "Deny"):
+			out[i].Effect = "Deny"
+		case strings.EqualFold(out[i].Effect, "Allow"):
+			out[i].Effect = "Allow"
+		}
+	}
+	return out
+}
+
+func oddEffect(stmts []model.Statement) bool {
+	for _, st := range stmts {
+		if st.Effect != "Allow" && st.Effect != "Deny" {
+			return true
+		}
+	}
+	return false
+}
+
 var objKeys = []string{"obj1", "a", "b", "ab", "dir/a", "dir/b", "dir/obj2", "newkey", "mp1", "dir/", "dirobj/", "dir/newdir/"}
 
 func stmtGen() *rapid.Generator[model.Statement] {
 	return rapid.Custom(func(t *rapid.T) model.Statement {
 		var s model.Statement
 		s.Effect = rapid.SampledFrom([]string{"Allow", "Allow", "Allow", "Deny"}).Draw(t, "effect")
+
 		if rapid.IntRange(0, 4).Draw(t, "p_star") == 0 {
 			s.Principals = []string{"*"}
 		} else {
@@ -400,6 +429,16 @@ func genCase(t *rapid.T) caseA {
 	c.Mode = rapid.SampledFrom([]string{"policy", "policy", "acl"}).Draw(t, "mode")
 	if c.Mode == "policy" {
 		c.Stmts = rapid.SliceOfN(stmtGen(), 1, 4).Draw(t, "statements")
+		if rapid.IntRange(0, 11).Draw(t, "effect_spelling") == 0 {
+			// one statement whose Effect is not in the canonical spelling (most often a Deny: that is where it matters)
+			i := rapid.IntRange(0, len(c.Stmts)-1).Draw(t, "effect_stmt")
+			for j := range c.Stmts {
+				if c.Stmts[j].Effect == "Deny" {
+					i = j
+				}
+			}
+			c.Stmts[i].Effect = map[string][]string{"Allow": {"allow", "ALLOW"}, "Deny": {"deny", "DENY"}}[c.Stmts[i].Effect][rapid.IntRange(0, 1).Draw(t, "effect_case")]
+		}
 	} else {
 		c.Grants = map[string][]string{}
 		for _, p := range []string{"READ", "WRITE", "READ_ACP", "WRITE_ACP", "FULL_CONTROL"} {
